@@ -14,6 +14,7 @@ R: the well-formed shapes are chained into real data directories and run through
 import os
 import random
 import re
+import struct
 
 from lib import btc, chains, datadir, layout, ref, run, wirerep
 
@@ -23,20 +24,36 @@ def summary_totals(stdout):
     return tuple(int(x) for x in m.groups()) if m else None
 
 
+def verify_links_only(verify):
+    return False
+
+
 def run_chain(w, blocks, coin, verify, ck_label, r0=None):
     """dump a chain and compare with the reference; the other dimensions of a run vary too: several blk files in random
     physical order, XOR obfuscation, --start / --end"""
     r0 = r0 or random.Random(len(blocks))
     nfiles = r0.choice([1, 1, 3])
+    if r0.random() < 0.35:
+        # records whose length prefix covers the block plus some zero padding, the next record following exactly where the prefix says
+        # (blocksize reports the prefix; decoding never depends on it)
+        for b in blocks:
+            if 'size' not in b and r0.random() < 0.5:
+                b['size'], b['fill'] = len(b['raw']) + r0.choice([1, 16, 80, 300]), True
     d = datadir.DataDir(w.sub('dd'), coin)
     order = list(range(len(blocks)))
     if nfiles > 1:
         r0.shuffle(order)
     offs = {}
     for h in order:
-        offs[h] = (h % nfiles, d.place(h % nfiles, blocks[h]['raw'], size=blocks[h].get('size')))     # (a stored length prefix may be untruthful)
+        offs[h] = (h % nfiles, d.place(h % nfiles, blocks[h]['raw'], size=blocks[h].get('size'), fill=blocks[h].get('fill', False)))     # (a stored length prefix may be untruthful)
     for h, b in enumerate(blocks):
-        d.record(b['hdr'], h, datadir.ACTIVE, len(b['txs']), offs[h][0], offs[h][1])
+        hdr_copy = b['hdr']
+        if ck_label == 'C12' and h % 2 == 0 and not verify_links_only(verify):
+            # the copy of the header inside the index record is not what decides how the stored block is decoded: a copy whose version
+            # field lies on the other side of the AuxPoW activation version (key, prev-hash and position stay right)
+            v = struct.unpack('<I', hdr_copy[:4])[0]
+            hdr_copy = struct.pack('<I', 1 if v >= 0x10101 else 0x620104) + hdr_copy[4:]
+        d.record(hdr_copy, h, datadir.ACTIVE, len(b['txs']), offs[h][0], offs[h][1], key=b['hash'])
     d.core_extras()
     d.write(xor_key=r0.choice([None, None, r0.randbytes(8), r0.randbytes(5)]))
     first = r0.choice([1, 1, 2]) if verify else r0.choice([0, 0, 1])
